@@ -28,7 +28,7 @@ import itertools
 import re
 
 from .core import AnalysisError
-from .objmodel import ClassModel
+from .objmodel import ClassModel, new_parser_state
 from .ordabs import Ev, ModelRaise, Obj, Sym, Unsupported
 from .repo import Repo
 
@@ -79,9 +79,11 @@ class Oracle:
         self.calls += 1
         out = self.script.pop(0) if self.script else "Fc"
         self.log.append((self.name, out, state.pos))
-        if out == "S1":
+        if out in ("S1", "S1p"):
             pairs.append(f"{self.name}#{self.calls}@{state.pos}")
             state.pos += 1
+            if out == "S1p":  # a success with an effect on the user stack (trivia rules may PUSH)
+                state.user_stack.__dict__["items"].append(f"pushed-{self.name}")
             return True
         if out == "S0":
             return True
@@ -108,7 +110,7 @@ def fresh_state(cm: ClassModel, entry_stack: tuple, ws_script: list[str], log: l
         r.__dict__["parse"] = ws
         rules["WHITESPACE"] = r
     parser = Obj("Parser", rules=rules)
-    state = cm.new("ParserState", INPUT, 1, parser)
+    state = new_parser_state(cm, INPUT, 1, parser, "C01 DIFF")
     for item in entry_stack:
         cm.call(state.user_stack, "push", item)
     # operators run inside the frame of the rule that contains them (RULE-FRAME obligation)
@@ -141,7 +143,7 @@ def diff_operator(cm: ClassModel, cls: str, ctor_args: list, ctor_kwargs: dict, 
         return 0, []  # reported by the SYNTAX rule
     for entry_stack in entry_stacks:
         for child_scripts in scripts_for(cls, n_children, quick):
-            for ws_script in ([], ["S1"]) if n_children else ([],):
+            for ws_script in (([], ["S1p"]) if quick else ([], ["S1"], ["S1p"])) if n_children else ([],):
                 n += 1
                 desc = f"children {child_scripts}, trivia {ws_script}, entry stack {list(entry_stack)}"
                 # --- interpreter
